@@ -338,8 +338,8 @@ class NTupleValidator(_ToTupleValidator[A]):
         else:
             return False, Invalid(TypeErr(tuple), val, self)
 
-        if not self._len_predicate(val):
-            return False, Invalid(PredicateErrs([self._len_predicate]), val, self)
+        if not self._len_predicate(coerced_val):
+            return False, Invalid(PredicateErrs([self._len_predicate]), coerced_val, self)
 
         errs: Dict[int, Invalid] = {}
         vals = []
